@@ -213,7 +213,7 @@ CLAIMED = {
          "DomainGuard::new): a guard is accepted exactly when "
          "`validate` accepts the string it was given, and the stored domain is that string with its trailing dots removed ('one trailing "
          "dot is ignored' on the guard side) — nothing else is stored, nothing is accepted around the validator. BOUNDED, not proved: "
-         "through the real DomainGuard::new + matchit_pattern and a real matchit router, with the three normalisation steps of the "
+         "through the real DomainGuard::new + matchit_pattern and a real matchit router, with the normalisation chain spliced from the template of the "
          "generated router, ~1.5k (quick) / 20k (thorough) pseudo-random guards built from the documented grammar (1-4 labels, literal "
          "labels, `{param}` with an optional literal suffix, a leading `{*param}`, optional trailing dot) x 24 near-miss hosts each are "
          "accepted and match exactly the hosts the documented rules give; EVERY string of length <=5 (quick, 19 607) / <=7 (thorough, "
@@ -225,8 +225,8 @@ CLAIMED = {
          "take_while, IndexSet<char>, syn::parse_str — measured: Verus has no str/iterator reasoning, Kani does not converge at 2-5 "
          "characters); `validate` is an uninterpreted oracle in the contract, trim_end_matches('.') is a retyped stand-in. The bounded "
          "stand-in enumerates only short strings over 7 symbols and samples beyond: a slip that needs a longer string over a richer "
-         "alphabet than its pools (parameter names that are Rust keywords, limits other than the listed boundaries) is not seen. The host normalisation is REPLICATED in the stand-in from "
-         "codegen/router.rs (it lives inside a quote! template): a change there is not seen. The conflict half of the statement "
+         "alphabet than its pools (parameter names that are Rust keywords, limits other than the listed boundaries) is not seen. The host normalisation chain is spliced on every run from the "
+         "quote! template of codegen/router.rs into the stand-in (so a change to it is seen, boundedly); the dispatch around it is emitted code and not decided. The conflict half of the statement "
          "is decided only as far as 'the compiler refuses exactly what matchit refuses, having offered it everything': WHEN matchit "
          "refuses is a dependency's rule and is not judged (it accepts `api.dev` next to `{sub}.dev` — the literal has priority — and its "
          "verdict depends on registration order: DESIGN §3/C20). A host with several trailing dots is outside 'every host name' and not judged."),
